@@ -471,6 +471,13 @@ pub(crate) fn run(
                         if state.get(0) > slot1 {
                             state.save(0, slot1);
                         }
+                        // Inside a look-behind, \K can also move the match start to before
+                        // the position the search started from. A search from `pos` never
+                        // reports a match that starts before `pos` (iteration, split and
+                        // replace rely on that), so cap the start to >= pos as well.
+                        if state.get(0) < pos {
+                            state.save(0, pos);
+                        }
                     }
                     return Ok(Some(state.saves));
                 }
